@@ -47,8 +47,8 @@ theorem sendTests_frame {s s' : State τ} {e e' : Env} {n : Nat} {num : Int}
       simp only [hb, bind, Except.bind] at h
       unfold Env.sendRun Env.send at h
       by_cases hbr : (e.flags.get n).broken = true
-      · simp [hbr] at h
-      · simp [hbr] at h
+      all_goals
+        simp [hbr] at h
         obtain ⟨rfl, rfl⟩ := h
         refine ⟨⟨rfl, rfl, rfl, rfl⟩, fun _ hm => by simpa [Env.emit] using hm, ⟨k, rfl⟩, ?_, ?_, ?_⟩
         · intro m hm
@@ -264,8 +264,8 @@ theorem sendTests_pos {s s' : State τ} {e e' : Env} {n c : Nat} (hc : 0 < c) (h
     simp only [hb, bind, Except.bind] at h
     unfold Env.sendRun Env.send at h
     by_cases hbr : (e.flags.get n).broken = true
-    · simp [hbr] at h
-    · simp [hbr] at h
+    all_goals
+      simp [hbr] at h
       obtain ⟨rfl, rfl⟩ := h
       exact ⟨rfl, _, AList.lookup_set_same _ _ _, by simp; omega⟩
 
@@ -315,8 +315,8 @@ theorem sendTests_one {s s' : State τ} {e e' : Env} {n : Nat} (h : sendTests s 
       simp only [hb, bind, Except.bind] at h
       unfold Env.sendRun Env.send at h
       by_cases hbr : (e.flags.get n).broken = true
-      · simp [hbr] at h
-      · simp [hbr] at h
+      all_goals
+        simp [hbr] at h
         obtain ⟨rfl, rfl⟩ := h
         simp
 
